@@ -482,10 +482,88 @@ func c20JSONDevName(pos int, posName string, atom int) string {
 	return fmt.Sprintf("#%d %s<-%s", pos, posName, c20JSONAtoms[atom])
 }
 
+// c20JSONAt returns the value at pre-order position target.
+func c20JSONAt(v interface{}, idx *int, target int) (interface{}, bool) {
+	me := *idx
+	*idx++
+	if me == target {
+		return v, true
+	}
+	switch x := v.(type) {
+	case map[string]interface{}:
+		for _, k := range c20SortedIfaceKeys(x) {
+			if r, ok := c20JSONAt(x[k], idx, target); ok {
+				return r, true
+			}
+		}
+	case []interface{}:
+		for _, e := range x {
+			if r, ok := c20JSONAt(e, idx, target); ok {
+				return r, true
+			}
+		}
+	}
+	return nil, false
+}
+
+// c20JSONTwins lists the pairs of positions (i < j) that hold the same scalar under the same member
+// name: in the documents ygot renders these are the copies of one YANG leaf that a compressed schema
+// maps to one field (list key "name" and "config/name"). A "twin" deviation replaces BOTH by the
+// same atom, so the decoder meets two equal non-scalar values where it expects two equal scalars.
+func c20JSONTwins(v interface{}, ps []string) [][2]int {
+	last := func(s string) string {
+		s = s[:strings.LastIndex(s, " |")]
+		return s[strings.LastIndex(s, "/")+1:]
+	}
+	scalar := func(s string) bool {
+		k := s[strings.LastIndex(s, " |")+2:]
+		return k == "string" || k == "number" || k == "bool"
+	}
+	var out [][2]int
+	for i := range ps {
+		if !scalar(ps[i]) {
+			continue
+		}
+		for j := i + 1; j < len(ps); j++ {
+			if !scalar(ps[j]) || last(ps[i]) != last(ps[j]) {
+				continue
+			}
+			a, b := 0, 0
+			x, _ := c20JSONAt(v, &a, i)
+			y, _ := c20JSONAt(v, &b, j)
+			if x == y {
+				out = append(out, [2]int{i, j})
+			}
+		}
+	}
+	return out
+}
+
+func c20JSONTwinName(t [2]int, ps []string, atom int) string {
+	return fmt.Sprintf("twin #%d+#%d %s<-%s", t[0], t[1], ps[t[0]], c20JSONAtoms[atom])
+}
+
+func c20JSONTwinSubst(v interface{}, t [2]int, av interface{}) interface{} {
+	i := 0
+	m := c20JSONSubst(v, &i, t[1], av) // the later position first: earlier positions keep their index
+	i = 0
+	return c20JSONSubst(m, &i, t[0], av)
+}
+
 // c20JSONApply re-applies a deviation by name (replay).
 func c20JSONApply(v interface{}, name string) (interface{}, bool) {
 	var ps []string
 	c20JSONPositions(v, "", &ps)
+	if strings.HasPrefix(name, "twin ") {
+		for _, t := range c20JSONTwins(v, ps) {
+			for ai := range c20JSONAtoms {
+				if c20JSONTwinName(t, ps, ai) == name {
+					return c20JSONTwinSubst(v, t, c20JSONAtomVals[ai]), true
+				}
+			}
+		}
+		return nil, false
+	}
 	for pi, pn := range ps {
 		for ai := range c20JSONAtoms {
 			if c20JSONDevName(pi, pn, ai) == name {
@@ -509,6 +587,14 @@ func c20JSONEnum(v interface{}, from int, maxDev int, devs []string, visit func(
 	}
 	var ps []string
 	c20JSONPositions(v, "", &ps)
+	if from == 0 && len(devs) == 0 {
+		// twin deviations (one deviation each, see c20JSONTwins)
+		for _, t := range c20JSONTwins(v, ps) {
+			for ai, av := range c20JSONAtomVals {
+				visit(c20JSONTwinSubst(v, t, av), []string{c20JSONTwinName(t, ps, ai)})
+			}
+		}
+	}
 	for pi := from; pi < len(ps); pi++ {
 		for ai, av := range c20JSONAtomVals {
 			i := 0
